@@ -38,6 +38,15 @@ CLAIMED = {
              note="Trusted: as C01; options of the base packet are abstracted to MSS / opaque-other by the harness; (fragment,type,version,MSS) given to "
                   "the fingerprint model are those the implementation extracted (C03's tie). No axioms.",
              tech="Coq proof (first-equal record, option-list invariants) + extracted-model differential correspondence", ref="DESIGN.md section 4 C08"),
+ "C03": dict(text="Coq theorems: the IPv4 (IHL 5..15, all field values), IPv6 and TCP (all 9 flag bits) dissectors invert the header encoders and yield "
+                  "exactly the documented quirk sets; whole-packet composition for both versions (every packet-signature field equals the header "
+                  "field); on option areas made of well-formed options the walker reports kinds in wire order, last MSS/scale/timestamp, EOL padding, "
+                  "opt+/exws/ts1-/ts2+ in the documented wording; 'bad' is set EXACTLY for the areas that are not well-formed (both directions), and a "
+                  "wrong-length fixed-format option is never turned into a value. " + TIE + " Packets are built by a Scapy-free byte builder; Scapy "
+                  "dissection sits on the implementation side of the tie.",
+             note="Trusted: as C01; Scapy is not modelled (the model answers only for well-framed IPv4/IPv6+TCP datagrams, which the harness builds); IPv6 "
+                  "extension headers and link-layer trailers are outside the demand. No axioms.",
+             tech="Coq proof (codec inversion, TLV walker soundness+completeness) + extracted-model differential correspondence on raw bytes", ref="DESIGN.md section 4 C03"),
 }
 def main():
     checks = []
